@@ -13,7 +13,7 @@ func init() { checks["C15"] = checkC15 }
 
 func checkC15(c *Ctx) {
 	r := c.Rng
-	c.Ev.Coverage.Rule = "histories of 2..30 calls sharing one reused ParsedJson (kept across failures: the object handed in is reused again after a failed call), one Serializer switching modes and one Deserialize destination (the blob, taken after the in-place edits so that it carries deleted runs, is also deserialized into a fresh destination: same tape word for word, same strings, same re-serialization): Parse/ParseND of valid documents, stage-1 failures (unterminated string, control character, no closing bracket) and stage-2 failures, below and above the 8 KiB threshold (also failing in a late index buffer, and at the very start of a dense <= 8 KiB document with several index buffers queued); half of the histories use by-value handles, both string modes, in-place edits of the returned object in between; every call's outcome and canonical document are compared with the same call on fresh objects; the index channel of the reused state must be empty after every call. non-trivial = history with at least one failure followed by a success on the reused object; distinct = by call sequence"
+	c.Ev.Coverage.Rule = "histories of 2..30 calls sharing one reused ParsedJson (kept across failures: the object handed in is reused again after a failed call), one Serializer switching modes (and, in a separate stream, one Serializer fed 120 k string pairs whose second document's strings are prefixes of what the first call left in its string buffer) and one Deserialize destination (the blob, taken after the in-place edits so that it carries deleted runs, is also deserialized into a fresh destination: same tape word for word, same strings, same re-serialization): Parse/ParseND of valid documents, stage-1 failures (unterminated string, control character, no closing bracket) and stage-2 failures, below and above the 8 KiB threshold (also failing in a late index buffer, and at the very start of a dense <= 8 KiB document with several index buffers queued); half of the histories use by-value handles, both string modes, in-place edits of the returned object in between; every call's outcome and canonical document are compared with the same call on fresh objects; the index channel of the reused state must be empty after every call. non-trivial = history with at least one failure followed by a success on the reused object; distinct = by call sequence"
 	mkDoc := func() (doc []byte, nd bool, kind string) {
 		size := r.Intn(4)
 		var base string
@@ -132,7 +132,7 @@ func checkC15(c *Ctx) {
 					hh := &history{doc: doc, pj: got.PJ}
 					for e := 0; e < 1+r.Intn(3); e++ {
 						if op := c.pickEdit(r, hh, r.Bool()); op != nil {
-							it := iterAt(hh.pj, op.K)
+							it := editIter(hh.pj, op.K, op.Path, r)
 							safeApply(op, &it)
 						}
 					}
@@ -196,4 +196,8 @@ func checkC15(c *Ctx) {
 			c.Ev.Sample(map[string]interface{}{"calls": calls})
 		}
 	}
+	// a Serializer used before must give what a fresh one gives: 120 k (short, short+suffix)
+	// string pairs, the earlier call having left the longer string right behind the live part
+	// of the string buffer (the de-duplication table is hashed with a per-process seed)
+	c.c11StaleStrings(c.N(120000, 600000))
 }
